@@ -175,8 +175,19 @@ func (d *DKG) ProcessDeals() (responses []*dkg.Response, err error) {
 		}
 	}()
 
-	responses = make([]*dkg.Response, 0)
+	// Every response is signed with a nonce taken from the round's seeded
+	// random stream, in the order the deals are handled. That order must not
+	// depend on map iteration: handling the same deals again (a replay of the
+	// operation log after a restart) would otherwise sign other responses with
+	// the same nonces, and two such result files give away the signing key.
+	deals := make([]*dkg.Deal, 0, len(d.deals))
 	for _, deal := range d.deals {
+		deals = append(deals, deal)
+	}
+	sort.SliceStable(deals, func(i, j int) bool { return deals[i].Index < deals[j].Index })
+
+	responses = make([]*dkg.Response, 0)
+	for _, deal := range deals {
 		if deal.Index == uint32(d.ParticipantID) {
 			continue
 		}
